@@ -115,6 +115,14 @@ Encode5(hrp, syms) ==
       body == hl \o <<Sep>> \o [i \in 1..Len(full) |-> Charset[full[i] + 1]]
   IN IF hl = hrp THEN body ELSE UpperS(body)
 
+\* a string whose polymod residue is c instead of 1 (c = 1 gives Encode5); used to probe the
+\* acceptance set of the checksum test: only residue 1 may be accepted
+Encode5Residue(hrp, syms, c) ==
+  LET hl == LowerS(hrp)
+      pm == Polymod(HrpExpand(hl) \o syms \o <<0,0,0,0,0,0>>) ^^ c
+      full == syms \o [i \in 1..6 |-> (pm \div Pow(32, 6 - i)) % 32]
+  IN hl \o <<Sep>> \o [i \in 1..Len(full) |-> Charset[full[i] + 1]]
+
 Encode(hrp, bytes) ==
   LET syms == ToBase32(bytes)
       ok == /\ Len(hrp) >= 1
